@@ -333,23 +333,47 @@ func main() {
 	ov, _ := json.Marshal(map[string]any{"Replace": map[string]string{virt: sf}})
 	ovf := filepath.Join(tmp, "ov.json")
 	os.WriteFile(ovf, ov, 0o644)
-	ctx, cancel := context.WithTimeout(context.Background(), 10*time.Minute)
-	defer cancel()
-	cmd := exec.CommandContext(ctx, "go", "run", "-overlay", ovf, "./internal/zz_verif_c20bounded")
-	cmd.Dir = opts.Repo
-	cmd.Env = append(os.Environ(), "GOFLAGS=-mod=mod", "GOPROXY=off", "AM_LOG=0")
-	var outb, errb bytes.Buffer
-	cmd.Stdout = &outb
-	cmd.Stderr = &errb
-	if e := cmd.Run(); e != nil {
-		return nil, 0, fmt.Errorf("bounded helpers stand-in failed: %v: %s", e, firstLines(errb.String(), 12))
+	runOnce := func() ([]string, int, error) {
+		ctx, cancel := context.WithTimeout(context.Background(), 10*time.Minute)
+		defer cancel()
+		cmd := exec.CommandContext(ctx, "go", "run", "-overlay", ovf, "./internal/zz_verif_c20bounded")
+		cmd.Dir = opts.Repo
+		cmd.Env = append(os.Environ(), "GOFLAGS=-mod=mod", "GOPROXY=off", "AM_LOG=0")
+		var outb, errb bytes.Buffer
+		cmd.Stdout = &outb
+		cmd.Stderr = &errb
+		if e := cmd.Run(); e != nil {
+			return nil, 0, fmt.Errorf("bounded helpers stand-in failed: %v: %s", e, firstLines(errb.String(), 12))
+		}
+		var raw struct {
+			Failing []string
+			Total   int
+		}
+		if e := json.Unmarshal(outb.Bytes(), &raw); e != nil {
+			return nil, 0, fmt.Errorf("bounded helpers output: %v (%s)", e, firstLines(outb.String(), 3))
+		}
+		return raw.Failing, raw.Total, nil
 	}
-	var raw struct {
-		Failing []string
-		Total   int
+	f1, total, e := runOnce()
+	if e != nil || len(f1) == 0 {
+		return f1, total, e
 	}
-	if e := json.Unmarshal(outb.Bytes(), &raw); e != nil {
-		return nil, 0, fmt.Errorf("bounded helpers output: %v (%s)", e, firstLines(outb.String(), 3))
+	// the family waits on goroutines and timeouts: a case is reported only if it fails in two
+	// runs in a row (scheduling noise on a loaded machine)
+	f2, _, e := runOnce()
+	if e != nil {
+		return nil, 0, e
 	}
-	return raw.Failing, raw.Total, nil
+	again := map[string]bool{}
+	for _, f := range f2 {
+		if i := strings.Index(f, " => "); i >= 0 {
+			again[f[:i]] = true
+		}
+	}
+	for _, f := range f1 {
+		if i := strings.Index(f, " => "); i >= 0 && again[f[:i]] {
+			failing = append(failing, f)
+		}
+	}
+	return failing, total, nil
 }
